@@ -130,6 +130,33 @@ impl Sandbox {
     }
 }
 
+/// Remove sandboxes left behind by harness processes that no longer exist (a killed child, an
+/// interrupted run). Names carry the creating pid, so sandboxes of live processes are untouched.
+pub fn sweep_stale() {
+    let Ok(rd) = std::fs::read_dir("/dev/shm") else { return };
+    for e in rd.flatten() {
+        let name = e.file_name().to_string_lossy().to_string();
+        let Some(rest) = name.strip_prefix("gv-") else { continue };
+        // the pid is the first all-digit segment of at least five characters
+        let Some(digits) = rest
+            .split(|c: char| c == '-' || c == '.')
+            .find(|seg| seg.len() >= 5 && seg.chars().all(|c| c.is_ascii_digit()))
+        else {
+            continue;
+        };
+        let Ok(pid) = digits.parse::<u32>() else { continue };
+        if pid == 0 || Path::new(&format!("/proc/{pid}")).exists() {
+            continue;
+        }
+        let p = e.path();
+        if p.is_dir() {
+            let _ = std::fs::remove_dir_all(&p);
+        } else {
+            let _ = std::fs::remove_file(&p);
+        }
+    }
+}
+
 impl Drop for Sandbox {
     fn drop(&mut self) {
         let _ = std::fs::remove_dir_all(&self.root);
